@@ -30,13 +30,14 @@ MSETS = [0, 3]
 
 
 PAREN_GAPS = ["", "\n        "]      # the statement split after its `!`: it still starts on the line of its name
+LINE_PREFIXES = ["", '"quit" => ', "'q' => ", 'r#"a"b"# => ']     # code (a literal pattern of a match arm) before the statement on its own line
 
 
 def build(spec):
     for seq, bi, tr, trd, eol, style, ind, ms in spec:
-        pg = 0
+        pg = px = 0
         if isinstance(ms, tuple):
-            ms, pg = ms
+            ms, pg, px = ms
         macro = gen.MACRO_SETS[ms][0]
         f = gen.File(style)
         f.raw("fn f() {\n")
@@ -49,7 +50,7 @@ def build(spec):
         k = 0
         block = BLOCKS[bi]
         for n, cnt in enumerate(block):
-            f.raw(INDENT[ind])
+            f.raw(INDENT[ind] + LINE_PREFIXES[px])
             for j in range(cnt):
                 st = gen.Stmt(macro=macro, kvs=(["a = 1"] if k % 2 else []), msg="m%d" % k, paren_gap=PAREN_GAPS[pg])
                 k += 1
@@ -64,7 +65,7 @@ def build(spec):
                 f.raw(INDENT[ind] + (IGN if trd == 0 else NOKVP)[0] + "\n")
         f.raw("}\n")
         code, exp = f.build(crlf=eol)
-        yield gen.cfg_index(ms, style), code, exp, (seq, bi, tr, trd, eol, style, ind, ms if not pg else (ms, pg))
+        yield gen.cfg_index(ms, style), code, exp, (seq, bi, tr, trd, eol, style, ind, ms if not (pg or px) else (ms, pg, px))
 
 
 def space(tier):
@@ -79,7 +80,12 @@ def space(tier):
         for seq in itertools.product(range(len(LINES)), repeat=L):
             # (one statement per line only: with two on a line the second would start on the line of the first one's parenthesis)
             for bi, style, ind in itertools.product((0, 2), (0, 1), (0, 1)):
-                yield (seq, bi, 0, 0, 0, bool(style), ind, (0, 1))
+                yield (seq, bi, 0, 0, 0, bool(style), ind, (0, 1, 0))
+            # ... and statements with a literal before them on their own line (all block shapes: they share the line)
+            for bi, style, px in itertools.product(range(len(BLOCKS)), (0, 1), (1, 2, 3)):
+                yield (seq, bi, 0, 0, 0, bool(style), 1, (0, 0, px))
+                if bi in (0, 2):
+                    yield (seq, bi, 0, 0, 0, bool(style), 1, (0, 1, px))
     # one more line of depth with the other dimensions reduced
     L = full_len + 1
     for seq in itertools.product(range(len(LINES)), repeat=L):
@@ -91,7 +97,9 @@ def space(tier):
 def classify(f):
     seq, bi, tr, trd, eol, style, ind, ms = f["label"]
     split = isinstance(ms, (tuple, list))
+    prefixed = split and len(ms) > 2 and ms[2]
     if split:
+        split = bool(ms[1])
         ms = ms[0]
     if f["class"] == "panic":
         return "panic:" + ("non-ascii-macro" if ms == 3 else "other")
@@ -104,6 +112,8 @@ def classify(f):
         tags.append("trailing-" + TRAIL[tr])
     if split:
         tags.append("split-after-bang")
+    if prefixed:
+        tags.append("literal-before-statement-on-its-line")
     return "%s:%s:%s" % ("structured" if style else "unstructured", f["class"], "+".join(tags))
 
 
